@@ -186,7 +186,8 @@ static void run_subcell(Ctx &c, const Cell &cell, const SubCell &sc) {
       str img; if (!get_image(c, k, p, cell.S, img)) return;
       c.src = "loaders"; pg_src("loaders");
       for (int k2 = 0; k2 < NKINDS; k2++) if (k2 != k) {
-        for (uint opt : {1u}) {
+        for (uint opt : {1u, 2u, 3u}) {
+          if (opt > 1 && !k_has_loadopt(k2)) continue;      // every load option of the kinds that take one
           StringDictionary *d2 = x_load(c, k2, img, false, opt);
           if (d2) { c.fail("load_own", "foreign_image_accepted", fmt("%s::load accepted a %s image", KNAME[k2], KNAME[k])); /* do not destroy: object is garbage */ }
         }
